@@ -116,15 +116,6 @@ def scenarios(tier, seed):
 def _joint_attrs(decos, v):
   def f(i, kind):
     a = ""
-    if kind == "free":
-      # MuJoCo forbids nothing here, but springs on free joints are meaningless; armature/damping are legal
-      if "armature" in decos:
-        a += f' armature="{_ARM[v]}"'
-      if "dampingpoly" in decos:
-        a += f' damping="{_DPOLY[v]}"'
-      elif "damping" in decos:
-        a += f' damping="{_DAMP[v]}"'
-      return a
     if "armature" in decos:
       a += f' armature="{_ARM[v] + 0.03 * i:.3g}"'
     if "dampingpoly" in decos:
